@@ -6,8 +6,9 @@
 (* spec/RegExpSpec.tla prescribes, and the outcome under the open named      *)
 (* deviations when that differs.                                             *)
 (*                                                                           *)
-(* Fam (one TLC run each):                                                   *)
-(*   "f1" atoms x quantifiers, assertions, escape translation atoms          *)
+(* Families (Fams = the set of families of one TLC run; NSel = subjects per  *)
+(* case, NPat = patterns per block, 0 = all):                                                   *)
+(*   "f1" atoms x quantifiers, assertions     "esc" escape translation atoms *)
 (*   "f2" two-term sequences          "f3" two-term alternations             *)
 (*   "f4" quantified groups around a two-term sequence / alternation         *)
 (*   "f5" quantified atoms whose body can match the empty string             *)
@@ -21,7 +22,7 @@
 (*             only (the harness feeds parser.TransformRegExp + regexp.      *)
 (*             Compile directly)                                             *)
 EXTENDS NumText, Json, TLC, SequencesExt, Randomization, C10Str
-CONSTANTS OpenDev, Fam, Tier, NSel
+CONSTANTS OpenDev, Fams, Tier, NSel, NPat
 VARIABLES blk, cs
 
 S == INSTANCE RegExpSpec WITH Dev <- {}
@@ -41,10 +42,12 @@ MaxLen == IF Thorough THEN 4 ELSE 3
 RECURSIVE Words(_)
 Words(k) == IF k = 0 THEN {<<>>} ELSE {w \o Alpha[i] : w \in Words(k - 1), i \in 1..Len(Alpha)}
 (* extra subjects for the character-set questions: CR, LS, VT, NBSP, BOM, e-acute, KELVIN SIGN, LONG S, digits *)
-Special == {<<13>>, <<8232>>, <<97, 13, 98>>, <<97, 8233>>, <<11>>, <<160>>, <<65279>>, <<233>>, <<201>>, <<8490>>, <<383>>, <<107>>, <<115>>,
-            <<49>>, <<95>>, <<97, 233, 97>>, <<233, 97>>, <<9>>, <<12>>, <<32>>, <<0>>, <<8>>, <<45>>, <<93>>, <<92>>, <<97, 45, 98>>}
+Special1 == {<<13>>, <<8232>>, <<97, 13, 98>>, <<97, 8233>>, <<11>>, <<160>>, <<65279>>, <<233>>, <<201>>, <<8490>>, <<383>>, <<107>>, <<115>>,
+             <<49>>, <<95>>, <<97, 233, 97>>, <<233, 97>>, <<32>>}
+Special == Special1 \cup {<<9>>, <<12>>, <<0>>, <<8>>, <<45>>, <<93>>, <<92>>, <<97, 45, 98>>, <<97>>, <<98>>, <<10>>, <<65>>, <<97, 10>>, <<>>}
 SubjSeq == SetToSeq(UNION {Words(k) : k \in 0..MaxLen})
-SpecialSeq == SetToSeq(Special \cup SeqSet(X_Escapes))      \* the escape atoms' own text is a subject too (\. vs ".")
+Special1Seq == SetToSeq(Special1)
+SpecialSeq == SetToSeq(Special)
 NSubj == Len(SubjSeq)
 
 -----------------------------------------------------------------------------
@@ -52,29 +55,34 @@ NSubj == Len(SubjSeq)
 Terms == SeqSet(X_Terms)
 Inner == SeqSet(X_Inner)
 InnerD == Cat2(Inner, Inner) \cup Cat3(Inner, {BAR}, Inner)
-F1 == Cat2(SeqSet(X_Atoms), SeqSet(X_Quants)) \cup SeqSet(X_Asserts) \cup SeqSet(X_Escapes) \cup {<<>>}
+F1 == Cat2(SeqSet(X_Atoms), SeqSet(X_Quants)) \cup SeqSet(X_Asserts) \cup {<<>>}
+FE == SeqSet(X_Escapes)
 F2 == Cat2(Terms, Terms)
 F3 == Cat3(Terms, {BAR}, Terms)
 F4 == {o \o d \o RP \o q : o \in {LP, NLP}, d \in InnerD, q \in SeqSet(X_GroupQuants)}
 F5 == Cat3(SeqSet(X_Nullable), SeqSet(X_NullQuants), {<<>>, <<98>>, <<36>>})
 F6 == {NLP \o LP \o a \o RP \o BAR \o b \o RP \o q : a \in Inner, b \in Inner, q \in SeqSet(X_GroupQuants)}
       \cup {LP \o LP \o a \o RP \o q1 \o b \o RP \o q : a \in Inner, b \in Inner, q1 \in {<<42>>, <<63>>}, q \in SeqSet(X_GroupQuants) \ {<<>>}}
-PatSeq ==
-    CASE Fam = "f1" -> SetToSeq(F1)  [] Fam = "f2" -> SetToSeq(F2)  [] Fam = "f3" -> SetToSeq(F3)
-      [] Fam = "f4" -> SetToSeq(F4)  [] Fam = "f5" -> SetToSeq(F5)  [] Fam = "f6" -> SetToSeq(F6)
-      [] Fam = "strm" -> SetToSeq(Terms \cup SeqSet(X_Asserts) \cup
-                           {<<>>, <<97, 124>>, <<124, 97>>, <<40, 97, 41, 40, 98, 41, 63>>, <<40, 97, 41, 124, 40, 98, 41>>,
-                            <<40, 63, 58, 40, 97, 41, 124, 98, 41, 42>>, <<40, 98, 41>>, <<40, 46, 41, 40, 46, 41>>,
-                            <<97, 42, 63>>, <<40, 97, 42, 41, 98>>, <<91, 97, 98, 93>>, <<40, 10, 41>>, <<40, 63, 58, 41>>,
-                            <<40, 97, 63, 41, 40, 98, 63, 41>>, <<40, 41>>, <<46, 63>>, <<98, 124, 40, 97, 41>>})
+StrmPats == Terms \cup SeqSet(X_Asserts) \cup
+            {<<>>, <<97, 124>>, <<124, 97>>, <<40, 97, 41, 40, 98, 41, 63>>, <<40, 97, 41, 124, 40, 98, 41>>,
+             <<40, 63, 58, 40, 97, 41, 124, 98, 41, 42>>, <<40, 98, 41>>, <<40, 46, 41, 40, 46, 41>>,
+             <<97, 42, 63>>, <<40, 97, 42, 41, 98>>, <<91, 97, 98, 93>>, <<40, 92, 110, 41>>, <<40, 63, 58, 41>>,
+             <<40, 97, 63, 41, 40, 98, 63, 41>>, <<40, 41>>, <<46, 63>>, <<98, 124, 40, 97, 41>>, <<233>>, <<40, 233, 41, 124, 97>>}
+Seq_f1 == SetToSeq(F1)   Seq_esc == SetToSeq(FE)   Seq_f2 == SetToSeq(F2)   Seq_f3 == SetToSeq(F3)
+Seq_f4 == SetToSeq(F4)   Seq_f5 == SetToSeq(F5)   Seq_f6 == SetToSeq(F6)   Seq_strm == SetToSeq(StrmPats)
+PatSeq(fam) ==
+    CASE fam = "f1" -> Seq_f1  [] fam = "esc" -> Seq_esc  [] fam = "f2" -> Seq_f2  [] fam = "f3" -> Seq_f3
+      [] fam = "f4" -> Seq_f4  [] fam = "f5" -> Seq_f5  [] fam = "f6" -> Seq_f6  [] fam = "strm" -> Seq_strm
       [] OTHER -> <<>>
-ExecFlags == IF Fam = "f1" THEN <<<<>>, <<105>>, <<109>>, <<103, 105, 109>>>> ELSE <<<<>>, <<105, 109>>>>
-ExecFam == Fam \in {"f1", "f2", "f3", "f4", "f5", "f6"}
+ExecFlags(fam) == IF fam = "f1" THEN <<<<>>, <<105>>, <<109>>, <<103, 105, 109>>>> ELSE IF fam = "esc" THEN <<<<>>, <<103, 105>>>> ELSE <<<<>>, <<105, 109>>>>
+ExecFam(fam) == fam \in {"f1", "esc", "f2", "f3", "f4", "f5", "f6"}
+BothForms(fam) == fam \in {"f1", "esc"}
 
 (* everything that the syntax / translation questions range over *)
-AllTexts == F1 \cup F2 \cup F3 \cup F4 \cup F5 \cup F6 \cup SeqSet(X_Unsupported) \cup SeqSet(X_Malformed)
-SyntaxTexts == F1 \cup F5 \cup SeqSet(X_Unsupported) \cup SeqSet(X_Malformed)
-SynSeq == IF Fam = "xlate" THEN SetToSeq(AllTexts) ELSE IF Fam = "syntax" THEN SetToSeq(SyntaxTexts) ELSE <<>>
+AllTexts == F1 \cup FE \cup F2 \cup F3 \cup F4 \cup F5 \cup F6 \cup SeqSet(X_Unsupported) \cup SeqSet(X_Malformed)
+SyntaxTexts == F1 \cup FE \cup F5 \cup SeqSet(X_Unsupported) \cup SeqSet(X_Malformed)
+Seq_xlate == SetToSeq(AllTexts)   Seq_syntax == SetToSeq(SyntaxTexts)
+SynSeq(fam) == IF fam = "xlate" THEN Seq_xlate ELSE Seq_syntax
 
 -----------------------------------------------------------------------------
 (* case text *)
@@ -114,9 +122,10 @@ Expect(d, c) ==
                        LET x == IF d THEN L!RxExec(k.X, c.subj[i]) ELSE S!RxExec(k.X, c.subj[i])
                        IN  Pair(x.v, x.R.li)]])
       [] c.fam = "syn" ->
-           LET k == IF d THEN L!RxConstruct(c.src, c.flags) ELSE S!RxConstruct(c.src, c.flags) IN
+           LET k == IF d THEN L!RxConstructF(c.src, c.flags, c.form) ELSE S!RxConstructF(c.src, c.flags, c.form) IN
            Ok(StrV(IF k.thr = "" THEN <<111, 107>>                                              \* "ok"
                    ELSE IF k.thr = "SyntaxError" THEN <<83, 121, 110, 116, 97, 120, 69, 114, 114, 111, 114>>
+                   ELSE IF k.thr = "TypeError" THEN <<84, 121, 112, 101, 69, 114, 114, 111, 114>>
                    ELSE <<69, 114, 114, 111, 114>>))                                             \* "Error": any error class
       [] c.fam = "strm" ->
            LET X0 == [S!RxNew(c.src, c.flags) EXCEPT !.li = c.li]
@@ -128,58 +137,69 @@ Expect(d, c) ==
                       [] c.m = "replacefn" -> IF d THEN L!RxStrReplace(X0, c.s, [k |-> "fn"]) ELSE S!RxStrReplace(X0, c.s, [k |-> "fn"])
            IN  Ok(Pair(x.v, x.R.li))
 
+(* classification of a pattern text for the direct translation pass *)
+Cls(d, src) ==
+    LET k == IF d THEN L!RxConstruct(src, <<>>) ELSE S!RxConstruct(src, <<>>)
+        c == IF d THEN L!RxClassify(src, <<>>) ELSE S!RxClassify(src, <<>>)
+    IN  IF k.thr = "" THEN "ok" ELSE IF c = "ok" THEN "syntax" ELSE c
+
 -----------------------------------------------------------------------------
 (* Evaluation is spread over the TLC workers: an initial state is a block,   *)
 (* its successors are the cases of the block.                                *)
 K == 64
 None == [fam |-> "none"]
 Pick(k, T) == IF NSel = 0 \/ k >= Cardinality(T) THEN T ELSE RandomSubset(k, T)
-Subjects(src) ==                                 \* the subjects of one exec case
+Subjects(fam, src) ==                            \* the subjects of one exec case
     LET ws == SetToSeq(Pick(NSel, 1..NSubj))
         base == [i \in 1..Len(ws) |-> SubjSeq[ws[i]]]
-    IN  IF Fam = "f1" THEN base \o SpecialSeq ELSE base
+    IN  IF fam = "f1" THEN base \o Special1Seq ELSE IF fam = "esc" THEN SpecialSeq \o <<src>> ELSE base
+StrmSubj == SubjSeq \o <<<<233, 97>>, <<97, 233, 97>>, <<233>>, <<20013, 97, 233>>>>      \* + e-acute, U+4E2D: byte and unit offsets differ
 
 StrmOps(nc) ==                                   \* the method variants for a pattern with nc captures
     {[m |-> "match"], [m |-> "search"], [m |-> "replacefn"]}
     \cup {[m |-> "split", lim |-> Limits[i], omit |-> FALSE] : i \in 1..Len(Limits)} \cup {[m |-> "split", lim |-> Undef, omit |-> TRUE]}
     \cup {[m |-> "replace", rep |-> X_Repls[i]] : i \in {j \in 1..Len(X_Repls) : S!RxReplDefined(X_Repls[j], nc)}}
 
-Init == blk \in 1..K /\ cs = None
+Block(seq, b) == Pick(NPat, {i \in 1..Len(seq) : i % K = b - 1})
+Init == blk \in Fams \X (1..K) /\ cs = None
 Next ==
+    LET fam == blk[1]  b == blk[2] IN
     /\ cs = None
     /\ UNCHANGED blk
-    /\ IF ExecFam
-       THEN \E j \in {i \in 1..Len(PatSeq) : i % K = blk - 1}, f \in 1..Len(ExecFlags) :
-               /\ S!RxClassify(PatSeq[j], <<>>) = "ok"
-               /\ LET form == IF Fam = "f1" \/ (j + f) % 2 = 0 THEN "lit" ELSE "ctor"
-                      c0 == [fam |-> "exec", src |-> PatSeq[j], flags |-> ExecFlags[f], subj |-> Subjects(PatSeq[j])]
-                  IN  \/ (PatSeq[j] # <<>> /\ form = "lit" /\ cs' = c0 @@ [form |-> "lit"])
-                      \/ ((Fam = "f1" \/ form = "ctor") /\ cs' = c0 @@ [form |-> "ctor"])
-       ELSE IF Fam = "syntax"
-       THEN \/ \E j \in {i \in 1..Len(SynSeq) : i % K = blk - 1}, form \in {"lit", "ctor"} :
-                  /\ S!RxClassify(SynSeq[j], <<>>) # "lax"
-                  /\ ~(form = "lit" /\ SynSeq[j] = <<>>)
-                  /\ ~(form = "lit" /\ \E i \in 1..Len(SynSeq[j]) : SynSeq[j][i] \in {47, 10, 13, 8232, 8233})
-                  /\ ~(form = "lit" /\ SynSeq[j][Len(SynSeq[j])] = 92)                          \* "\/" would continue the literal
-                  /\ cs' = [fam |-> "syn", form |-> form, src |-> SynSeq[j], flags |-> <<>>]
-            \/ /\ blk = 1
+    /\ IF ExecFam(fam)
+       THEN \E j \in Block(PatSeq(fam), b), f \in 1..Len(ExecFlags(fam)) :
+               LET src == PatSeq(fam)[j] IN
+               /\ S!RxClassify(src, <<>>) = "ok"
+               /\ LET form == IF BothForms(fam) \/ (j + f) % 2 = 0 THEN "lit" ELSE "ctor"
+                      c0 == [fam |-> "exec", src |-> src, flags |-> ExecFlags(fam)[f], subj |-> Subjects(fam, src)]
+                  IN  \/ (src # <<>> /\ form = "lit" /\ cs' = c0 @@ [form |-> "lit"])
+                      \/ ((BothForms(fam) \/ form = "ctor") /\ cs' = c0 @@ [form |-> "ctor"])
+       ELSE IF fam = "syntax"
+       THEN \/ \E j \in {i \in 1..Len(SynSeq(fam)) : i % K = b - 1}, form \in {"lit", "ctor"} :
+                  LET src == SynSeq(fam)[j] IN
+                  /\ S!RxClassify(src, <<>>) # "lax"
+                  /\ ~(form = "lit" /\ src = <<>>)
+                  /\ ~(form = "lit" /\ \E i \in 1..Len(src) : src[i] \in {47, 10, 13, 8232, 8233})
+                  /\ ~(form = "lit" /\ src[Len(src)] = 92)                                    \* "\/" would continue the literal
+                  /\ cs' = [fam |-> "syn", form |-> form, src |-> src, flags |-> <<>>]
+            \/ /\ b = 1
                /\ \E fl \in SeqSet(X_BadFlags) \cup SeqSet(X_GoodFlags), form \in {"lit", "ctor"} :
                      /\ ~(form = "lit" /\ \E i \in 1..Len(fl) : fl[i] = 32)
                      /\ cs' = [fam |-> "syn", form |-> form, src |-> <<97>>, flags |-> fl]
-       ELSE IF Fam = "strm"
-       THEN \E j \in {i \in 1..Len(PatSeq) : i % K = blk - 1}, fl \in {<<>>, <<103>>, <<103, 105>>} :
-               LET P == S!RxParse(PatSeq[j]) IN
+       ELSE IF fam = "strm"
+       THEN \E j \in {i \in 1..Len(PatSeq(fam)) : i % K = b - 1}, fl \in {<<>>, <<103>>, <<103, 105>>} :
+               LET P == S!RxParse(PatSeq(fam)[j]) IN
                /\ P.ok /\ ~S!RxUnsupported(P)
-               /\ \E si \in Pick(NSel, 1..NSubj), o \in StrmOps(P.nc), li \in {IntV(0), IntV(1)} :
-                     cs' = o @@ [fam |-> "strm", form |-> IF PatSeq[j] = <<>> \/ si % 2 = 0 THEN "ctor" ELSE "lit",
-                                 src |-> PatSeq[j], flags |-> fl, s |-> SubjSeq[si], li |-> li]
+               /\ \E si \in Pick(NSel, 1..Len(StrmSubj)), o \in StrmOps(P.nc), li \in {IntV(0), IntV(1)} :
+                     cs' = o @@ [fam |-> "strm", form |-> IF PatSeq(fam)[j] = <<>> \/ si % 2 = 0 THEN "ctor" ELSE "lit",
+                                 src |-> PatSeq(fam)[j], flags |-> fl, s |-> StrmSubj[si], li |-> li]
        ELSE \* "xlate"
-            \E j \in {i \in 1..Len(SynSeq) : i % K = blk - 1} : cs' = [fam |-> "xlate", src |-> SynSeq[j]]
+            \E j \in {i \in 1..Len(SynSeq(fam)) : i % K = b - 1} : cs' = [fam |-> "xlate", src |-> SynSeq(fam)[j]]
 
 Emit ==
     cs = None \/
     IF cs.fam = "xlate"
-    THEN PrintT("VJSON " \o ToJson([src |-> cs.src, cls |-> S!RxClassify(cs.src, <<>>)]))
+    THEN PrintT("VJSON " \o ToJson([src |-> cs.src, cls |-> Cls(FALSE, cs.src), dev |-> Cls(TRUE, cs.src)]))
     ELSE LET es == Expect(FALSE, cs)
              ed == Expect(TRUE, cs)
              c == IF cs.fam = "exec" THEN [fam |-> "exec", src |-> cs.src, flags |-> cs.flags, form |-> cs.form, n |-> Len(cs.subj)] ELSE cs
